@@ -20,6 +20,7 @@ def run(tier, seed):
                         builder_tie=True)
     _collisions(c, tier, seed)
     headfrag.run(c, tier, seed, ())
+    headfrag.run_entities(c, tier, seed, ())
     c.assumptions += ["tokenizer totality is validated by testing, not proved (PARTIAL, see DESIGN.md C02)"]
     return c.finish()
 
